@@ -79,6 +79,8 @@ def canon(F, n):
             return ("SHDR_AT", canon(F, args[1]))
         if f == "[T]::get" and args[0] == ("call", "ops::Deref::deref", (F_(P(1), "shdrs"),)) and n[2] == "Some":
             return ("SHDR_AT", canon(F, args[1]))
+        if f == "[T]::first" and args[0] == ("call", "ops::Deref::deref", (F_(P(1), "shdrs"),)) and n[2] == "Some":
+            return ("SHDR_AT", ("c", 0))       # `self.shdrs.first()`: element 0 when there is one
         if f == "iter::find" and n[2] == "Some":
             src, clo = args
             cc = closure_const(F, clo)
@@ -149,6 +151,8 @@ def guard_atoms(F, an, st):
             for nm_ in ("shdrs", "phdrs"):
                 if nx == F_(P(1), nm_):
                     atoms.add(("has", nm_, f[2] == "Some"))
+                if nx == ("call", "[T]::first", (("call", "ops::Deref::deref", (F_(P(1), nm_),)),)):
+                    atoms.add(("has", nm_, f[2] == "Some"))      # first() is Some exactly for a non-empty table
             c = canon(F, ("payload", nx, "Some"))
             if isinstance(c, tuple) and c and c[0] == "FIRST":
                 atoms.add(("found",) + c[1:] + (f[2] == "Some",))
@@ -174,7 +178,18 @@ def guarded_outcomes(F, q, subst=None):
         return None, None
     an = analyze_fn(F, fn)
     out = set()
-    for v, st in ok_outcomes(an):
+    # per acyclic path when the function has no loop (the conditions of a path are exact; an outcome collected at a merge point
+    # keeps only what all the merged paths agree on)
+    ps = an.paths()
+    if ps is not None:
+        outs = []
+        for t, st, _ in ps:
+            if t.op == "agg" and t.args[3] == "Err":
+                continue
+            outs.append((t.args[4][0] if (t.op == "agg" and t.args[3] == "Ok") else T.payload(t, "Ok"), st))
+    else:
+        outs = ok_outcomes(an)
+    for v, st in outs:
         c = canon(F, norm(v))
         g = guard_atoms(F, an, st)
         if subst:
@@ -182,6 +197,56 @@ def guarded_outcomes(F, q, subst=None):
             g = frozenset(_subst(a, *subst) for a in g)
         out.add((tuple(sorted(map(repr, g))), repr(c)))
     return fn, out
+
+
+def guards_equivalent(ga, gb):
+    """ga, gb: sets of (guard atoms as sorted reprs, value repr) as produced by guarded_outcomes.  Are the two functions' outcome
+    conditions logically the same: for every value, the disjunction of the guard conjunctions under which it is produced is
+    equivalent, in the theory `an entry found in table T  =>  T is not empty` ?   (So an explicit emptiness test before a search,
+    or its absence, does not matter.)  Returns (ok, text)."""
+    import ast, itertools
+    def parse(g):
+        out = []
+        for conj, val in g:
+            atoms = [ast.literal_eval(x) for x in conj]
+            out.append((frozenset(atoms), val))
+        return out
+    A, B = parse(ga), parse(gb)
+    # propositional variables: an atom without its truth value; ('hdr', field, 'eq'|'ne', k) -> variable ('hdr', field, k), true for eq
+    def var_of(a):
+        if a[0] == "hdr":
+            return ("hdr", a[1], a[3]), a[2] == "eq"
+        return a[:-1], bool(a[-1])
+    vs = sorted({var_of(a)[0] for conj, _ in A + B for a in conj}, key=repr)
+    if len(vs) > 12:
+        return None, "too many guard atoms"
+    def consistent(asg):
+        for v, tv in asg.items():
+            if v[0] == "found" and tv and v[1] in ("shdr", "phdr"):
+                h = ("has", v[1] + "s")
+                if h in asg and not asg[h]:
+                    return False
+        # a header field equals at most one constant
+        eqs = {}
+        for v, tv in asg.items():
+            if v[0] == "hdr" and tv:
+                if eqs.setdefault(v[1], v[2]) != v[2]:
+                    return False
+        return True
+    vals = sorted({v for _, v in A + B})
+    for bits in itertools.product((False, True), repeat=len(vs)):
+        asg = dict(zip(vs, bits))
+        if not consistent(asg):
+            continue
+        def holds(conj):
+            return all(asg[var_of(a)[0]] == var_of(a)[1] for a in conj)
+        for val in vals:
+            ra = any(holds(c) for c, v in A if v == val)
+            rb = any(holds(c) for c, v in B if v == val)
+            if ra != rb:
+                return False, "under %s the outcome %s is produced by %s only" % (
+                    sorted("%s=%s" % (repr(k), v_) for k, v_ in asg.items()), val[:120], "the slice parser" if ra else "the stream parser")
+    return True, ""
 
 
 def section_probes(F):
@@ -246,9 +311,10 @@ def run(ctx, rep):
         n += 1
         _, gso = guarded_outcomes(F, "elf_bytes::ElfBytes::dynamic")
         _, gto = guarded_outcomes(F, "elf_stream::ElfStream::dynamic")
-        rep.require(gso == gto, "sibling", "dynamic:guards", wh(tf["span"]), "each outcome is reached under the same table-present / section-found conditions",
-                    "dynamic() reaches its outcomes under different conditions: only slice %s / only stream %s"
-                    % ([x[0] for x in sorted(gso - gto)][:3], [x[0] for x in sorted(gto - gso)][:3]))
+        geq, gwhy = (True, "") if gso == gto else guards_equivalent(gso, gto)
+        rep.require(geq is True, "sibling", "dynamic:guards", wh(tf["span"]), "each outcome is reached under equivalent table-present / section-found conditions",
+                    "dynamic() reaches its outcomes under different conditions: %s; only slice %s / only stream %s"
+                    % (gwhy, [x[0] for x in sorted(gso - gto)][:3], [x[0] for x in sorted(gto - gso)][:3]))
         rep.require(sorted(set(map(repr, so))) == sorted(set(map(repr, to))), "sibling", "dynamic", wh(tf["span"]),
                     "first SHT_DYNAMIC section's bytes, else (no section headers) first PT_DYNAMIC segment's file bytes",
                     "dynamic() differ: slice %s / stream %s" % ([show(x)[:260] for x in so], [show(x)[:260] for x in to]))
@@ -265,9 +331,10 @@ def run(ctx, rep):
         inst = [_subst(x, ("p", 2), ("c", K)) for x in to]
         _, gso = guarded_outcomes(F, "elf_bytes::ElfBytes::" + sm)
         _, gto = guarded_outcomes(F, "elf_stream::ElfStream::get_symbol_table_of_type", (("p", 2), ("c", K)))
-        rep.require(gso == gto, "sibling", sm + ":guards", wh(sf["span"]), "same table-present / section-found conditions per outcome",
-                    "%s reaches its outcomes under different conditions: only slice %s / only stream %s"
-                    % (sm, [x[0] for x in sorted(gso - gto)][:3], [x[0] for x in sorted(gto - gso)][:3]))
+        geq, gwhy = (True, "") if gso == gto else guards_equivalent(gso, gto)
+        rep.require(geq is True, "sibling", sm + ":guards", wh(sf["span"]), "equivalent table-present / section-found conditions per outcome",
+                    "%s reaches its outcomes under different conditions: %s; only slice %s / only stream %s"
+                    % (sm, gwhy, [x[0] for x in sorted(gso - gto)][:3], [x[0] for x in sorted(gto - gso)][:3]))
         rep.require(sorted(set(map(repr, so))) == sorted(set(map(repr, inst))), "sibling", sm, wh(sf["span"]),
                     "first %s section's bytes + the bytes of SHDR_AT(its sh_link)" % cname,
                     "%s differ: slice %s / stream(%s) %s" % (sm, [show(x)[:260] for x in so], cname, [show(x)[:260] for x in inst]))
